@@ -128,8 +128,8 @@ var (
 		{typ: reflect.TypeOf(int64(0)), ptr: true, opt: true, rep: true, encs: []string{"", "delta", "dict", "plain", "split"}},
 		{typ: reflect.TypeOf(uint32(0)), ptr: true, opt: true, rep: true, encs: []string{"", "delta", "dict"}},
 		{typ: reflect.TypeOf(uint64(0)), ptr: true, opt: true, rep: true, encs: []string{"", "delta", "dict"}},
-		{typ: reflect.TypeOf(float32(0)), ptr: true, rep: true, encs: []string{"", "split", "dict", "plain"}},
-		{typ: reflect.TypeOf(float64(0)), ptr: true, rep: true, encs: []string{"", "split", "dict", "plain"}},
+		{typ: reflect.TypeOf(float32(0)), ptr: true, opt: true, rep: true, encs: []string{"", "split", "dict", "plain"}},
+		{typ: reflect.TypeOf(float64(0)), ptr: true, opt: true, rep: true, encs: []string{"", "split", "dict", "plain"}},
 		{typ: reflect.TypeOf(""), ptr: true, opt: true, rep: true, tags: []string{"", "", "enum", "json"}, encs: []string{"", "delta", "dict", "plain"}},
 		{typ: reflect.TypeOf([]byte(nil)), opt: true, rep: true, encs: []string{"", "delta", "dict", "plain"}},
 		{typ: reflect.TypeOf([16]byte{}), ptr: true, rep: true, tags: []string{"", "uuid"}, encs: []string{"", "dict", "plain", "split"}},
@@ -427,14 +427,17 @@ type dynWriter struct {
 	sw     *parquet.SortingWriter[any]
 	rows   bool
 	filter parquet.RowWriter
+	mixed  bool
+	calls  int
 }
 
 func (w *dynWriter) Write(d Data, lo, hi int) (int, error) {
 	dd := d.(*dynData)
+	w.calls++
 	switch {
 	case w.filter != nil:
 		return w.filter.WriteRows(cloneRows(dd.rows[lo:hi]))
-	case w.rows:
+	case w.rows || (w.mixed && w.calls%2 == 1):
 		rows := cloneRows(dd.rows[lo:hi])
 		n, err := w.g.WriteRows(rows)
 		Scribble(rows)
@@ -541,6 +544,8 @@ func (s *dynShape) NewWriter(kind string, out io.Writer, opts ...parquet.WriterO
 		return &dynWriter{g: parquet.NewGenericWriter[any](out, o...)}
 	case WRows:
 		return &dynWriter{g: parquet.NewGenericWriter[any](out, o...), rows: true}
+	case WMixed:
+		return &dynWriter{g: parquet.NewGenericWriter[any](out, o...), mixed: true}
 	case WFilter:
 		g := parquet.NewGenericWriter[any](out, o...)
 		return &dynWriter{g: g, filter: parquet.FilterRowWriter(g, func(parquet.Row) bool { return true })}
